@@ -28,7 +28,7 @@ def emits(tr):
             out.append(r)
         if r["e"] == "step_end":
             out.append({"e": "step_end", "step": r["step"], "uid": r["uid"], "failed": r["how"].startswith("raise:"),
-                        "seq": r["seq"], "run": r["run"], "t": r["t"]})
+                        "cancelled": r["how"] == "cancelled", "seq": r["seq"], "run": r["run"], "t": r["t"]})
     return out
 
 
@@ -42,8 +42,29 @@ def extra(prog, tr):
     return {"plain": {s: not any(o["op"] in ("collect", "wait") for o in sc["body"]) for s, sc in prog["steps"].items()}}
 
 
+def resumed_items(chk):
+    """Serialise/resume points: the routing programs (and a waiter with a requirement that shares its input type with a
+    plain step) are run along explored schedules, snapshotted at the end of the schedule and resumed."""
+    import random
+    from harness.drivers import engine_traces as et
+    from harness.programs import scenarios as sc
+    rng = random.Random(chk.seed + 3)
+    out = []
+    progs = [("waiter_shared_input+resume", sc.waiter_shared_input(), [("Resp1", None)]),
+             ("overlap(1,2,2)+resume", sc.overlap(1, 2, 2), []),
+             ("targeted(2)+resume", sc.targeted(2), [])]
+    for (label, prog, ext) in progs:
+        paths = et.explore(prog, ext_menu=(), max_depth=8, max_paths=chk.pick(6, 40), rng=random.Random(rng.random()),
+                           timeout_advance=False, drain=False, max_ext=0)
+        for (_tr, sched) in paths:
+            for cut in sorted({len(sched), max(1, len(sched) // 2)}):
+                tr = et.replay_then_resume(prog, sched[:cut], ext_menu=ext)
+                out.append((label, prog, ext, tr, sched[:cut]))
+    return out
+
+
 def run(chk):
-    items = eg.collect(chk, ["routing", "fanout"])
+    items = eg.collect(chk, ["routing", "fanout"]) + resumed_items(chk)
     items2 = [(l, p, e, emits(tr), s) for (l, p, e, tr, s) in items]
     eg.conform_reducer(chk, items)
     eg.standard_run(chk, "C02", None, {"emit", "step_start", "step_end", "wait_ret", "drained", "pub"}, extra=extra,
